@@ -9,6 +9,7 @@ package gomatrixserverlib
 
 import (
 	"fmt"
+	"math"
 	"sort"
 	"strings"
 
@@ -166,6 +167,8 @@ func grAuthKeys(version, typ, sender string, stateKey *string, content jv) []str
 }
 
 // add appends an event on top of parent; returns it (flagged rejected if R-auth refuses it).
+const grHugeTS = math.MinInt64
+
 func (r *grRoom) add(parent int, typ, sender string, stateKey *string, content jv, tsDelta int64, idHint int) *grEvent {
 	tr := vtraits[r.Version]
 	e := &grEvent{Idx: len(r.Events), Type: typ, StateKey: stateKey, Sender: sender, Parent: parent}
@@ -175,6 +178,10 @@ func (r *grRoom) add(parent int, typ, sender string, stateKey *string, content j
 		p := r.Events[parent]
 		parentState = p.State
 		e.Depth, e.TS = p.Depth+1, p.TS+tsDelta
+		if tsDelta == grHugeTS {
+			// a timestamp at or beyond 2^63 (see raTS), from here on down this branch
+			e.TS = math.MinInt64 + p.TS%1000
+		}
 		spec.Prev = append([]string{p.ID}, r.mergePrev...)
 	} else {
 		parentState = map[string]int{}
@@ -294,6 +301,9 @@ func grGenWith(t *rapid.T, version string, minEvents, maxEvents int, opts grOpts
 		actor := rapid.SampledFrom(grUsers).Draw(t, "actor")
 		target := rapid.SampledFrom(grUsers[1:]).Draw(t, "target")
 		tsDelta := int64(rapid.SampledFrom([]int{0, 0, 1, 1, 5, -2, -15}).Draw(t, "ts")) // (negative: a server whose clock is behind)
+		if !tr.Canonical && r.Events[parent].TS >= 0 && rapid.IntRange(0, 24).Draw(t, "hugeTS") == 0 {
+			tsDelta = grHugeTS
+		}
 		idHint := rapid.IntRange(0, 9).Draw(t, "idHint")
 		var typ string
 		var sk *string
